@@ -330,8 +330,9 @@ func (s *State) noteIndex(i *Term) {
 
 // instances: quantified facts of the path condition instantiated at the index
 // terms read on the path (a cheap, sound substitute for solver-side matching).
-func (s *State) instances() []*Term {
-	if len(s.idx) == 0 {
+func (s *State) instances(extra []*Term) []*Term {
+	cands := append(append([]*Term(nil), s.idx...), extra...)
+	if len(cands) == 0 {
 		return nil
 	}
 	var out []*Term
@@ -339,7 +340,7 @@ func (s *State) instances() []*Term {
 	var visit func(t *Term)
 	visit = func(t *Term) {
 		if t.Op == "forall" && len(t.Bound) == 1 && t.Bound[0].Sort == SInt && !t.open {
-			for _, c := range s.idx {
+			for _, c := range cands {
 				for _, cand := range []*Term{c, Sub(c, IntLit(1))} {
 					inst := Subst(t.Args[0], map[*Term]*Term{t.Bound[0]: cand})
 					if !inst.IsTrue() && !seen[inst] && !inst.open {
@@ -360,7 +361,7 @@ func (s *State) instances() []*Term {
 			g := t.Args[0]
 			f := t.Args[1]
 			if len(f.Bound) == 1 && f.Bound[0].Sort == SInt && !f.open {
-				for _, c := range s.idx {
+				for _, c := range cands {
 					inst := Implies(g, Subst(f.Args[0], map[*Term]*Term{f.Bound[0]: c}))
 					if !inst.IsTrue() && !seen[inst] && !inst.open {
 						seen[inst] = true
@@ -372,6 +373,33 @@ func (s *State) instances() []*Term {
 	}
 	for _, t := range s.pc {
 		visit(t)
+	}
+	// one more round: quantifiers nested inside the instances just produced
+	first := append([]*Term(nil), out...)
+	for _, t := range first {
+		var inner func(x *Term)
+		inner = func(x *Term) {
+			switch x.Op {
+			case "forall":
+				visit(x)
+			case "and":
+				for _, a := range x.Args {
+					inner(a)
+				}
+			case "=>":
+				if x.Args[1].Op == "forall" || x.Args[1].Op == "and" {
+					visit(x)
+					if x.Args[1].Op == "and" {
+						for _, a := range x.Args[1].Args {
+							if a.Op == "forall" {
+								visit(Implies(x.Args[0], a))
+							}
+						}
+					}
+				}
+			}
+		}
+		inner(t)
 	}
 	return out
 }
